@@ -459,6 +459,15 @@ def g_registry(r):
         if k < 0.55: s.emit("OpRegister", reg, m)
         elif k < 0.9: s.emit("OpUnregister", reg, m)
         else: s.emit("OpRegister", reg, reg)                 # not a collector: an ill-typed step on both sides
+    if r.random() < 0.25:
+        # a name stays bound to its help / label names for the life of the registry: after one of two collectors of a name has been
+        # unregistered (and even after both have), a collector of that name with other dimensions is an Err, not an Ok
+        reg = r.choice(regs); nm = r.choice(["w", "m"])
+        a = s.emit("OpGauge", "NI", opts_good(nm, [("k", "1")]))
+        b = s.emit("OpGauge", "NI", opts_good(nm, [("k", "2")]))
+        c = s.emit("OpCounterVec", "NU", opts_good(nm), ["a"]) if r.random() < 0.5 else s.emit("OpGauge", "NI", dict(opts_good(nm, [("k", "3")]), help="other help"))
+        for step in (("OpRegister", a), ("OpRegister", b), ("OpUnregister", a), ("OpRegister", c), ("OpUnregister", b), ("OpRegister", c), ("OpRegister", a)):
+            s.emit(step[0], reg, step[1])
     return s.ops
 
 
@@ -682,7 +691,7 @@ class C17(SeqProp):
             "removals of 0-40 values and label maps of 0-40 entries (right names, wrong names, missing names, repeated keys), also through local "
             "vectors; (3) bucket lists with NaN, +-inf, equal / decreasing neighbours, +-0, subnormals, 4096 bounds, on histograms and on the children "
             "of histogram vectors; (4) linear_buckets / exponential_buckets over a float pool (0, negative, NaN, +-inf, subnormal, huge) x counts "
-            "0..4096; (5) Registry::new_custom with (in)valid prefix / labels, register twice, unregister absent, clones; (6) MetricFamily lists of "
+            "0..4096; (5) Registry::new_custom with (in)valid prefix / labels, register twice, unregister absent, clones, a collector with other dimensions under a name whose collectors were unregistered; (6) MetricFamily lists of "
             "every MetricType incl. UNTYPED and SUMMARY, without name, without metrics, with metrics lacking / mismatching the payload of their type, "
             "through TextEncoder::encode / encode_utf8 / encode_to_string and ProtobufEncoder::encode with a writer that never fails and one that "
             "fails after n bytes.  non-trivial = the scenario contains an Err answer (or, for encoders, an Err or a failing writer); distinct = "
